@@ -77,6 +77,48 @@ def run(ctx):
                 SP.one_case(eng, res, s, [], [], [], order, SC.FIELD_GROUPS["depth"] + ["unique_tag_count"], "tag permutation")
                 nperm += 1
         res.coverage_extra["tag_permutations"] = nperm
+        # the stored history counts: a replace ref or a graft that would shorten the longest chain, or redirect an
+        # annotated tag, must not change the depths
+        import os, subprocess
+        nrep = 0
+        for it in range(4 if quick else 30):
+            sc = gen_dag(rng)
+            d = os.path.join(eng.scratch, "replace%d" % it)
+            gitdir = sc.materialise(d)
+            env = S.clean_env()
+            rc0, out0, err0 = S.run_sizer(ctx["bins"]["sizer"], d, ["--json", "--no-progress"])
+            commits = [i for i, o in enumerate(sc.objects) if o["kind"] == "commit" and o["parents"]]
+            tags = [i for i, o in enumerate(sc.objects) if o["kind"] == "tag" and sc.objects[o["target"]]["kind"] == "tag"]
+            roots = [i for i, o in enumerate(sc.objects) if o["kind"] == "commit" and not o["parents"]]
+            for c in commits[-3:]:
+                subprocess.run(["git", "replace", "--graft", sc.oids[c].hex()], cwd=d, env=env, stdout=subprocess.PIPE, stderr=subprocess.PIPE)
+            for g in tags[:2]:
+                inner = sc.objects[sc.objects[g]["target"]]["target"]
+                t2 = subprocess.run(["git", "mktag"], cwd=d, env=env, input=b"object %s\ntype %s\ntag short\ntagger T <t@example.com> 1 +0000\n\nm\n"
+                                    % (sc.oids[inner].hex().encode(), sc.objects[inner]["kind"].encode()), stdout=subprocess.PIPE, stderr=subprocess.PIPE)
+                if t2.returncode == 0:
+                    subprocess.run(["git", "replace", "-f", sc.oids[g].hex(), t2.stdout.decode().strip()], cwd=d, env=env, stdout=subprocess.PIPE, stderr=subprocess.PIPE)
+            if commits and roots:
+                os.makedirs(os.path.join(gitdir, "info"), exist_ok=True)
+                with open(os.path.join(gitdir, "info", "grafts"), "w") as f:
+                    f.write("%s\n" % sc.oids[commits[-1]].hex())
+            rc1, out1, err1 = S.run_sizer(ctx["bins"]["sizer"], d, ["--json", "--no-progress", "--exclude", "refs/replace"])
+            nrep += 1
+            res.case(("replace-depth", tuple(sc.oids)), True)
+            inp = {"objects": len(sc.objects), "refs": [n.decode("latin1") for n, _ in sc.refs], "replaced_commits": [sc.oids[c].hex() for c in commits[-3:]]}
+            if rc0 != 0 or rc1 != 0:
+                res.violations.append(vlib.Violation("run failed with replace refs / grafts present: %s" % (err1 or err0)[:200].decode("latin1"), inp))
+            else:
+                v0, _ = S.hist_from_json(out0)
+                v1, _ = S.hist_from_json(out1)
+                for f in SC.FIELD_GROUPS["depth"]:
+                    i = S.HIST_KEYS.index(f)
+                    if v0[i] != v1[i]:
+                        res.violations.append(vlib.Violation("%s changes when replace refs / grafts are added (references under refs/replace excluded)" % f, inp,
+                                                             expected={f: v0[i]}, observed={f: v1[i]}))
+            import shutil
+            shutil.rmtree(d, ignore_errors=True)
+        res.coverage_extra["replace_graft_runs"] = nrep
     finally:
         eng.close()
     return res
